@@ -82,7 +82,7 @@ type BaseRec struct {
 }
 
 // Sub is a tagged union; Kind is one of
-// s1 s2 mul alt lig c1 c2 c3 k1 k2 k3 p1 p2 pp1 pp2 mb unsup.
+// s1 s2 mul alt lig c1 c2 c3 k1 k2 k3 p1 p2 pp1 pp2 mb mm r8 unsup.
 type Sub struct {
 	Kind     string
 	Cov      []int        // s1 c2 k2 p1 pp2
@@ -262,7 +262,9 @@ func (s *Sub) sx() vlib.Sx {
 			l[i] = rl
 		}
 		return vlib.L(k, ints(s.Cov), pairs(s.CD), pairs(s.CD2), l)
-	case "mb":
+	case "r8":
+		return vlib.L(k, pairs(s.Map), intLists(s.Covs), intLists(s.Covs3))
+	case "mb", "mm":
 		ml := make(vlib.List, len(s.Marks))
 		for i, m := range s.Marks {
 			ml[i] = vlib.L(vlib.Int(m.G), vlib.Int(m.Cls), vlib.Int(m.X), vlib.Int(m.Y))
@@ -547,7 +549,10 @@ func psub(x vlib.Sx) Sub {
 			}
 			s.PairMat = append(s.PairMat, row)
 		}
-	case "mb":
+	case "r8":
+		need(3)
+		s.Map, s.Covs, s.Covs3 = ppairs(p[1]), pintLists(p[2]), pintLists(p[3])
+	case "mb", "mm":
 		need(2)
 		for _, e := range pl(p[1]) {
 			q := pints(e)
